@@ -60,14 +60,14 @@ def build_element(el):
         # the optional value type of the element: an input that looks like a date-time is typed DATETIME for every second
         # element (the type says nothing about how the format constraints are to see the input: they get what was entered)
         kw = {}
-        if isinstance(el["input"], str) and el["input"][:2] == "20" and "T" in el["input"] and _alt(el["id"] + "t"):
+        if isinstance(el["input"], str) and el["input"][:2] == "20" and "T" in el["input"] and _alt((el["id"] or "") + "t"):
             kw["value_type"] = DataElementDataType.DATETIME
         return (UserFreeText if sub else DataElementFreeText)(discriminator=el["id"], ahb_expression=el["expr"], entered_input=el["input"],
                                                               data_element_id="1234", **kw)
     return (UserValuePool if sub else DataElementValuePool)(
         discriminator=el["id"], data_element_id="0333", entered_input=el["input"],
         # the meaning of a qualifier is free text and may be empty
-        value_pool=[ValuePoolEntry(qualifier=e["q"], meaning=e.get("meaning", "" if _alt(e["q"] + el["id"]) else "Bedeutung " + e["q"]),
+        value_pool=[ValuePoolEntry(qualifier=e["q"], meaning=e.get("meaning", "" if _alt(e["q"] + (el["id"] or "")) else "Bedeutung " + e["q"]),
                                    ahb_expression=e["expr"]) for e in el["entries"]],
     )
 
@@ -165,6 +165,8 @@ def own_evaluation(expr, text, env):
     if r[0] == "exc":
         if r[1] == "InvalidExpressionError":
             return {"invalid": r[2].error_message}
+        if r[1] == "NotImplementedError":
+            return {"notimpl": str(r[2])[:80]}  # e.g. a package the resolver does not know
         raise RuntimeError(f"harness error: own evaluation of {expr!r} raised {r[1]}: {r[2]}")
     x = r[1]
     ind = x.requirement_indicator
